@@ -1,7 +1,3 @@
 package gensim
 
-func JudgeC15(c *Ctx, h *History, obs []*Obs) ([]Violation, error) { return nil, nil }
-func JudgeC16(c *Ctx, h *History, obs []*Obs) ([]Violation, error) { return nil, nil }
-func CheckC15(c *Ctx) (*Outcome, error)                             { return nil, &InfraError{Msg: "todo"} }
-func CheckC16(c *Ctx) (*Outcome, error)                             { return nil, &InfraError{Msg: "todo"} }
-func SelftestDeterminism(repo, vd string, seed uint64) int          { return 2 }
+func SelftestDeterminism(repo, vd string, seed uint64) int { return 2 }
